@@ -6,7 +6,9 @@ ids=("$@"); [ ${#ids[@]} -eq 0 ] && ids=($(ls seeded))
 mkdir -p /tmp/seedreg; : > /tmp/seedreg/summary.txt
 one() {
   id="$1"
-  pid=$(python3 -c "import json;print(json.load(open('seeded/$id/meta.json'))['property'])")
+  [ -f "seeded/$id/meta.json" ] || return 0
+  # the check named in detected_by (a seed may be reported by another property's check than the one it was written for)
+  pid=$(python3 -c "import json,re;m=json.load(open('seeded/$id/meta.json'));x=re.search(r'bin/check (C\d\d)', m.get('detected_by',''));print(x.group(1) if x else m['property'])")
   if bin/mutation-demo "seeded/$id/patch.diff" "$pid" quick > "/tmp/seedreg/$id.txt" 2>&1; then
     echo "DETECTED  $id ($pid)  $(grep -m1 signature /tmp/seedreg/$id.txt | cut -c1-140)" >> /tmp/seedreg/summary.txt
   else
